@@ -6,8 +6,12 @@ ALL_NP = (1, 2, 3, 4, 5, 6, 7, 8)
 
 
 def sig(rec, clauses):
-    return {"op": rec.get("k") or rec.get("e"), "np": rec.get("np"), "cfg": rec.get("cfg") or rec.get("tag"),
-            "kind": rec.get("kind")}
+    s = {"op": rec.get("k") or rec.get("e"), "np": rec.get("np"), "cfg": rec.get("cfg") or rec.get("tag"),
+         "kind": rec.get("kind")}
+    parts = str(rec.get("cfg") or "").split("/")
+    if rec.get("kind") == "amg" and len(parts) >= 3:
+        s.update(coarsening=parts[0], relax=parts[1], solver=parts[2])
+    return s
 
 
 def run(c):
@@ -42,12 +46,12 @@ def run(c):
         c.parallel([
             lambda: c.tlc_model("PmisModel", constants={"NN": 4, "MinNP": 1, "MaxNP": 3, "Sym": "TRUE"}, workers=4),
             lambda: c.tlc_model("PmisModel", cfg="PmisModel5.cfg", constants={"NN": 5, "MinNP": 1 if th else 2, "MaxNP": 3 if th else 2, "Sym": "TRUE"},
-                                workers=6 if not th else 8, timeout=2400),
+                                workers=6 if not th else 8, timeout=2400, coverage=False),   # (interim coverage blocks of long runs read as "never taken")
             lambda: c.tlc_model("PmisModel", cfg="PmisModelDi.cfg", constants={"NN": 4 if th else 3, "MinNP": 1, "MaxNP": 3, "Sym": "FALSE"},
                                 workers=4 if not th else 8, timeout=2400),
             lambda: c.tlc_model("Consolidation", workers=2)]
             + ([lambda: c.tlc_model("PmisModel", cfg="PmisModel6.cfg", constants={"NN": 6, "MinNP": 2, "MaxNP": 2, "Sym": "TRUE"},
-                                    workers=8, timeout=3000)] if th else []))
+                                    workers=8, timeout=3000, coverage=False)] if th else []))
 
     def validate(t, label, chunk):
         lines = [x for x in open(t).read().splitlines() if x.startswith("{") and x.endswith("}")]
